@@ -873,6 +873,27 @@ func genC06(ctx *Ctx) []Case {
 		}
 	}
 
+	// --- volume: objects saved through ONE real badger transaction that crosses badger's transaction
+	// limit (about 9.6MB of key+value bytes, or the entry-count limit, with the options the repository
+	// uses) and rolls over inside Txn.Set; read back through the badger store, keys listed (> 100 keys
+	// behind a prefix).  The harness builds the objects from the seed (see c06_volume.go).
+	vol := func(mode, n, size int) {
+		add("volume", true, xt.N(xt.LI(14), xt.LI(mode), xt.LI(n), xt.LI(size), xt.L(uint64(ctx.Rng.Int63n(1<<40)))))
+	}
+	vol(1, 250, 10)    // small objects: listings with more than 100 keys per prefix
+	vol(1, 175, 60000) // commits, just over the byte limit: one rollover
+	vol(2, 260, 56000) // all six kinds in turn, just over the limit
+	if ctx.Thorough() {
+		vol(1, 400, 60000)  // two rollovers
+		vol(2, 1000, 56000) // several rollovers, all kinds
+		vol(1, 110000, 0)   // tiny objects: the limit is reached by their number
+		vol(1, 20, 1100000) // (commit messages are capped at 60000: small volume, no rollover)
+		vol(2, 40, 1100000) // values above badger's value threshold (counted as pointers)
+		for i := 0; i < 6; i++ {
+			vol(1+ctx.Pick(2), 150+ctx.Pick(500), 20000+ctx.Pick(40000))
+		}
+	}
+
 	// --- decode-only: valid encodings and small mutations of them, every reader
 	dec := func(tag string, f int, b []byte) { add(tag, true, xt.N(xt.LI(13), xt.LI(f), xt.Bytes(b))) }
 	dec("decode", 1, []byte{0, 0, 0, 1, 0, 5})                   // stream ends after the last length prefix
